@@ -24,6 +24,7 @@ pub fn prop() -> Prop {
             Sub::tape("triangles_random", 32, 150_000, 7_500_000, triangles_random),
             Sub::tape("triangles_large", 32, 2_000, 100_000, triangles_large),
             Sub::tape("polylines", 64, 200_000, 10_000_000, polylines),
+            Sub::tape("huge_outlines", 48, 240, 12_000, huge_outlines),
         ],
     }
 }
@@ -241,6 +242,87 @@ fn polylines(d: &mut Dec, cx: &mut Cx) -> Res {
 
 
 /// Triangles spanning 100..=300 px.
+/// One-pixel outlines of triangles with edges of 1025..=28000 px and one-pixel polylines with such segments
+/// (coordinates within +-14000): `pixels()` costs O(perimeter), so the outline clause applies unchanged — the
+/// outline is the union of the three edge lines, each in one of its two directions; the polyline is the union
+/// of its segment lines. (The fill clauses would cost O(area) and stay with the sub-checks up to 1024 px.)
+fn huge_outlines(d: &mut Dec, cx: &mut Cx) -> Res {
+    let big = |d: &mut Dec| match d.u(0, 3) {
+        0 => d.pick(&[4095, 4096, 4097, 8191, 8193, 16383, 16384, 16385, 16387, 21845, 21847, 27999]) * if d.bool() { 1 } else { -1 },
+        1 => d.i(-3000, 3000),
+        _ => d.i(-28_000, 28_000),
+    };
+    let vertex = |d: &mut Dec, from: Point| {
+        let p = from + Point::new(big(d), big(d));
+        Point::new(p.x.clamp(-14_000, 14_000), p.y.clamp(-14_000, 14_000))
+    };
+    let a = Point::new(d.i(-14_000, 14_000), d.i(-14_000, 14_000));
+    if d.ratio(2, 3) {
+        let (b, c) = (vertex(d, a), vertex(d, a));
+        let (b, c) = gen::structure_triangle(d, a, b, c);
+        let (b, c) = (Point::new(b.x.clamp(-14_000, 14_000), b.y.clamp(-14_000, 14_000)), Point::new(c.x.clamp(-14_000, 14_000), c.y.clamp(-14_000, 14_000)));
+        let t = Triangle::new(a, b, c);
+        cx.describe(|| format!("{:?} (1-px outline)", t));
+        cx.class("triangle_outline");
+        let longest = [(a, b), (b, c), (c, a)].iter().map(|(p, q)| (p.x - q.x).abs().max((p.y - q.y).abs())).max().unwrap();
+        cx.nontrivial(longest >= 1025 && orient(a, b, c) != 0);
+        let align = d.pick(&[StrokeAlignment::Inside, StrokeAlignment::Center, StrokeAlignment::Outside]);
+        let style = PrimitiveStyleBuilder::new().stroke_color(Rgb888::nth(2)).stroke_width(1).stroke_alignment(align).build();
+        let mut outl = S::new();
+        let budget = 3 * 4 * 30_000usize;
+        for (k, p) in t.into_styled(style).pixels().enumerate() {
+            ensure!(k < budget, "triangle:outline_too_many_pixels", "the 1-px outline yields more than {} pixels", budget);
+            outl.insert((p.0.y, p.0.x));
+        }
+        let edges = [(a, b), (b, c), (c, a)];
+        let fw: Vec<S> = edges.iter().map(|(x, y)| set(Line::new(*x, *y).points())).collect();
+        let bw: Vec<S> = edges.iter().map(|(x, y)| set(Line::new(*y, *x).points())).collect();
+        for mask in 0..8 {
+            let mut u = S::new();
+            for i in 0..3 {
+                u.extend(if mask >> i & 1 == 0 { fw[i].iter() } else { bw[i].iter() });
+            }
+            if u == outl {
+                return Ok(());
+            }
+        }
+        let mut u = S::new();
+        for i in 0..3 {
+            u.extend(fw[i].iter());
+            u.extend(bw[i].iter());
+        }
+        let extra: Vec<_> = outl.difference(&u).take(6).map(|k| pt(*k)).collect();
+        let missing = (0..3).map(|i| fw[i].intersection(&bw[i]).filter(|k| !outl.contains(*k)).count()).sum::<usize>();
+        return fail(
+            "triangle:outline_not_edge_lines",
+            format!("1-px outline ({:?}) is not the union of the three edge lines in any direction; {} pixels on no edge line (first {:?}); {} edge pixels common to both directions are not drawn; outline has {} pixels", align, outl.difference(&u).count(), extra, missing, outl.len()),
+        );
+    }
+    let n = d.u(2, 5);
+    let mut v = vec![a];
+    for _ in 1..n {
+        let last = *v.last().unwrap();
+        v.push(vertex(d, last));
+    }
+    cx.describe(|| format!("Polyline {:?} (1 px)", v));
+    cx.class("polyline");
+    cx.nontrivial(true);
+    let style = PrimitiveStyle::with_stroke(Rgb888::nth(2), 1);
+    let mut drawn = S::new();
+    for (k, p) in Polyline::new(&v).into_styled(style).pixels().enumerate() {
+        ensure!(k < 8 * 60_000, "polyline:too_many_pixels", "the 1-px polyline yields more than {} pixels", 8 * 60_000);
+        drawn.insert((p.0.y, p.0.x));
+    }
+    let mut u = S::new();
+    for w in v.windows(2) {
+        u.extend(Line::new(w[0], w[1]).points().map(|p| (p.y, p.x)));
+    }
+    if drawn != u {
+        return fail("polyline:styled_not_union", format!("1-px polyline pixels() has {} pixels, the union of its segment lines {}; first only drawn {:?}, first only in the union {:?}", drawn.len(), u.len(), drawn.difference(&u).next().map(|k| pt(*k)), u.difference(&drawn).next().map(|k| pt(*k))));
+    }
+    Ok(())
+}
+
 fn triangles_large(d: &mut Dec, cx: &mut Cx) -> Res {
     // one large triangle in six spans up to 1024 px (display scale), the others 100..=300
     let hi = if d.aux_u(7, 0, 5) == 5 { 1024 } else { 300 };
